@@ -91,17 +91,18 @@ type writeAns struct {
 
 // simConn is a scripted net.Conn.
 type simConn struct {
-	id      int
-	log     *evlog
-	onRead  func(c *simConn, armed bool, want int) readAns
-	onWrite func(c *simConn, p []byte) writeAns
-	mu      sync.Mutex
-	armedR  bool
-	armedW  bool
-	closed  bool
-	pend    []byte // rest of a chunk that did not fit the slice
-	written []byte // every byte accepted
-	closedCh chan struct{} // closed together with the connection (optional)
+	id         int
+	log        *evlog
+	onRead     func(c *simConn, armed bool, want int) readAns
+	onWrite    func(c *simConn, p []byte) writeAns
+	mu         sync.Mutex
+	armedR     bool
+	armedW     bool
+	closed     bool
+	expiredR   bool                 // a read deadline expired and has not been set again
+	pend       []byte               // rest of a chunk that did not fit the slice
+	written    []byte               // every byte accepted
+	closedCh   chan struct{}        // closed together with the connection (optional)
 	closeDelay func() time.Duration // Close takes this long before it takes effect (optional)
 }
 
@@ -115,7 +116,11 @@ func (c *simConn) Read(p []byte) (int, error) {
 		return 0, net.ErrClosed
 	}
 	var a readAns
-	if len(c.pend) != 0 {
+	if c.expiredR && c.armedR {
+		// the deadline that expired is still in the past: every read fails at once until
+		// the deadline is set again (net.Conn semantics)
+		a = readAns{kind: rTimeout}
+	} else if len(c.pend) != 0 {
 		a = readAns{kind: rData, data: c.pend}
 		c.pend = nil
 	} else {
@@ -138,6 +143,7 @@ func (c *simConn) Read(p []byte) (int, error) {
 		if !c.armedR {
 			panic("sim: deadline expiry without a deadline")
 		}
+		c.expiredR = true
 		c.log.add(e)
 		return 0, errSimTimeout
 	case rEOF:
@@ -225,12 +231,14 @@ func (c *simConn) RemoteAddr() net.Addr { return simAddr{} }
 func (c *simConn) SetDeadline(t time.Time) error {
 	c.mu.Lock()
 	c.armedR, c.armedW = !t.IsZero(), !t.IsZero()
+	c.expiredR = false
 	c.mu.Unlock()
 	return nil
 }
 func (c *simConn) SetReadDeadline(t time.Time) error {
 	c.mu.Lock()
 	c.armedR = !t.IsZero()
+	c.expiredR = false
 	c.mu.Unlock()
 	return nil
 }
@@ -269,7 +277,7 @@ type simStore struct {
 	mu     sync.Mutex
 	m      map[uint][]byte
 	onOp   func(kind string, key uint) bool // true: fail this operation
-	listFn func(keys []uint) []uint          // order of List results (nil: ascending)
+	listFn func(keys []uint) []uint         // order of List results (nil: ascending)
 }
 
 func newSimStore(log *evlog) *simStore {
